@@ -531,58 +531,68 @@ theorem C07_output_eq_edit_spec_unconditional_false :
     C07_implicit_close_removes_parent_end_tag_counterexample.2] at this
   exact absurd this (by decide)
 
-/-- A well-nested run is a clean run. -/
-theorem nestedRun_imp_cleanRun (H : List Handler) (enc : Enc) (toks : List SrcToken) (s : Spec.EditDoc.SpecSt)
-    (h : Spec.EditDoc.nestedRun H enc s toks = true) : Spec.EditDoc.cleanRun H enc s toks = true := by
+/-- A tidy run is a clean run. -/
+theorem tidyRun_imp_cleanRun (H : List Handler) (enc : Enc) (toks : List SrcToken) (s : Spec.EditDoc.SpecSt)
+    (h : Spec.EditDoc.tidyRun H enc s toks = true) : Spec.EditDoc.cleanRun H enc s toks = true := by
   induction toks generalizing s with
   | nil => exact h
   | cons t ts ih =>
-    simp only [Spec.EditDoc.nestedRun, Spec.EditDoc.cleanRun, Bool.and_eq_true] at h ⊢
+    simp only [Spec.EditDoc.tidyRun, Spec.EditDoc.cleanRun, Bool.and_eq_true] at h ⊢
     refine ⟨?_, ih _ h.2⟩
     cases t with
     | endTag name raw =>
       have h1 := h.1
-      simp only [Spec.EditDoc.closesInnermost] at h1
+      simp only [Spec.EditDoc.closesUntouched] at h1
       simp only [Spec.EditDoc.implicitHere]
       cases hfi : s.openEls.findIdx? (fun o => o.lname == asciiLowerBytes name) with
       | none => rfl
       | some idx =>
         rw [hfi] at h1
-        have : idx = 0 := by simpa using h1
-        subst this
-        simp
+        simp only [List.all_eq_true] at h1
+        simp only [Bool.not_eq_true', List.any_eq_false]
+        intro o ho
+        have := h1 o ho
+        cases hoe : o.edit with
+        | none => simp [Spec.EditDoc.elHasEndEdits, hoe]
+        | some e => simp [hoe] at this
     | _ => rfl
 
 /-- **C07_output_eq_edit_spec_partial** — for every set of handlers (any scripts, several handlers per
 token, nested matched elements, void / foreign self-closing elements, removed content with handlers
-inside, `on_end_tag`, streaming content …) and every token stream in which each end tag is stray or
-closes the innermost open element and no element with end-region edits is left open at the end:
-the sink bytes of the dispatcher model are exactly the documented edit of the token stream, and no
-`user_count` underflows / no end-tag locator is stale (`fault`) on the way.
-Missing for the full statement: implicit closes of elements *without* end-region edits (closed by an
-ancestor's end tag), where the model still runs those elements' (invisible) deferred handlers on the
-ancestor's end tag. -/
+inside, `on_end_tag`, streaming content …) and every *tidy* token stream — the elements an end tag
+closes implicitly (unclosed elements above the one it names) were not touched by element handlers,
+and no element with end-region edits is left open at the end; stray end tags, unclosed untouched
+elements, text/comment handlers anywhere are all allowed — the sink bytes of the dispatcher model are
+exactly the documented edit of the token stream, and no `user_count` underflows / no end-tag locator
+is stale (`fault`) on the way.
+Missing for the full statement (`cleanRun`): implicit closes of elements an element handler ran on
+but whose end regions stayed (visibly) empty; there the model still runs those elements' invisible
+deferred handlers on the ancestor's end tag. -/
 theorem C07_output_eq_edit_spec_partial (H : List Handler) (enc : Enc) (toks : List SrcToken)
-    (hn : Spec.EditDoc.nestedRun H enc {} toks = true) :
+    (hn : Spec.EditDoc.tidyRun H enc {} toks = true) :
     (rewrite H enc toks).2 = Spec.EditDoc.rewrite H enc toks
       ∧ (rewrite H enc toks).1.fault = false ∧ (rewrite H enc toks).1.faultRemoved = false :=
   LolHtml.Lemmas.Refine.rewrite_refines H enc toks hn
 
-/-- Non-vacuity: a closed element with edits in all regions inside an unclosed parent without edits,
-plus a stray end tag. `<div><span>x</span></zz>` with
-`span { before a; prepend p; append q; after z; set_tag_name b }`. -/
+/-- Non-vacuity: `<div><span>x<p>y</span></zz>` — a closed `span` with edits in all regions, inside an
+unclosed `div`; an untouched unclosed `p` closed implicitly by `</span>`; a stray end tag; a text
+handler on `*` (runs inside `p` too). `span { before a; prepend p; append q; after z; set_tag_name b }`,
+`* text { before "!" }`. -/
 example :
     let toks : List SrcToken :=
       [.startTag [100, 105, 118] [] false .html [60, 100, 105, 118, 62],
        .startTag [115, 112, 97, 110] [] false .html [60, 115, 112, 97, 110, 62],
        .text [120],
+       .startTag [112] [] false .html [60, 112, 62],
+       .text [121],
        .endTag [115, 112, 97, 110] [60, 47, 115, 112, 97, 110, 62],
        .endTag [122, 122] [60, 47, 122, 122, 62]]
     let H := spanHandler [.before (.buffer [97] .html), .prepend (.buffer [112] .html),
-      .append (.buffer [113] .html), .after (.buffer [122] .html), .setTagName [98]]
-    Spec.EditDoc.nestedRun H encUtf8 {} toks = true
+        .append (.buffer [113] .html), .after (.buffer [122] .html), .setTagName [98]]
+      ++ [{ sel := some .any, script := .text fun _ => [.mut (.before (.buffer [33] .html))] }]
+    Spec.EditDoc.tidyRun H encUtf8 {} toks = true
       ∧ (rewrite H encUtf8 toks).2
-          = [60, 100, 105, 118, 62, 97, 60, 98, 62, 112, 120, 113, 60, 47, 98, 62, 122,
-             60, 47, 122, 122, 62] := by decide
+          = [60, 100, 105, 118, 62, 97, 60, 98, 62, 112, 33, 120, 33, 60, 112, 62, 33, 121, 33, 113,
+             60, 47, 98, 62, 122, 60, 47, 122, 122, 62] := by decide
 
 end LolHtml.Thm.C07
